@@ -226,6 +226,63 @@ def one_spec(ctx, name, kw, data, pkinds, tag):
   ctx.sample(dict(estimator=name, train_indices=np.asarray(train_idx)[:5].tolist(), query_pair_indices=pair_idx[:2].tolist()), limit=3)
 
 
+def special_preprocessor_lanes(ctx):
+  """(a) formed points with exactly ONE integer-valued feature, given while a preprocessor is set, are points - not a column of
+  indicators: the preprocessor is not consulted and the model is the one learned without preprocessor.  (b) a callable
+  preprocessor whose output dtype depends on the rows asked for (all-integer rows come back as integers, others as floats):
+  the tuples formed column by column hold the same numbers as X[idx] - nothing is truncated to the type of the first column"""
+  from metric_learn import NCA, MLKR, ITML, LSML, SCML
+  rng = np.random.default_rng(ctx.seed + 501)
+  for rep in range(3):
+    n = 24
+    y = np.arange(n) % 3
+    x1 = (rng.integers(0, 6, size=(n, 1)) + 6 * y[:, None]).astype([np.int64, np.int32, np.int16][rep])
+    bank = rng.standard_normal((40, 1)) * 7
+    for nm, cls, target in (('NCA', NCA, y), ('MLKR', MLKR, y * 1.0 + rng.standard_normal(n) * 0.1)):
+      ctx.count('one_integer_feature', 1)
+      counting = Counting(bank)
+      try:
+        with warnings.catch_warnings():
+          warnings.simplefilter('ignore')
+          ref = cls(max_iter=5).fit(x1, target)
+          for pre, what in ((bank, 'array'), (counting, 'callable')):
+            e = cls(max_iter=5, preprocessor=pre).fit(x1, target)
+            t_ref, t_e = ref.transform(x1[:5]), e.transform(x1[:5])
+            if counting.calls or not same(ref.components_, e.components_) or not same(t_ref, t_e):
+              ctx.fail_input('formed_ignores_preprocessor', '%s: formed points with one integer-valued feature are read as indicators when a preprocessor (%s) is set' % (nm, what),
+                             dict(estimator=nm, X=x1.tolist(), dtype=str(x1.dtype), preprocessor=what), observed=np.asarray(e.components_).tolist(), expected=np.asarray(ref.components_).tolist())
+              break
+      except Exception as ex:
+        ctx.fail_input('formed_ignores_preprocessor', '%s on formed one-feature integer points with a preprocessor raises %s' % (nm, type(ex).__name__),
+                       dict(estimator=nm, X=x1.tolist()), observed=str(ex)[:200])
+  for rep in range(4):
+    d = 3
+    rows = [[float(v) for v in rng.integers(-5, 6, size=d)] for _ in range(10)] + [list(np.round(rng.standard_normal(d) * 3, 3)) for _ in range(14)]
+    rows_i = [[int(v) for v in r] if k < 10 else r for k, r in enumerate(rows)]      # the first ten rows hold Python ints
+    Xf = np.array(rows, dtype=float)
+    pre = (lambda table: (lambda idx: np.array([table[int(i)] for i in idx])))(rows_i)
+    for nm, cls, width in (('ITML', ITML, 2), ('SCML', SCML, 3), ('LSML', LSML, 4)):
+      idx = np.column_stack([rng.integers(0, 10, size=16)] + [rng.integers(0, 24, size=16) for _ in range(width - 1)])   # column 0: integer rows only
+      if width == 2:
+        idx[:, 1] = np.where(idx[:, 1] == idx[:, 0], (idx[:, 1] + 11) % 24, idx[:, 1])
+      ctx.count('mixed_dtype_columns', 1)
+      kw = dict(max_iter=10) if nm != 'SCML' else dict(max_iter=50, output_iter=10, n_basis=8, random_state=0)
+      extra = (np.where(np.arange(16) % 2 == 0, 1, -1),) if width == 2 else ()
+      try:
+        with warnings.catch_warnings():
+          warnings.simplefilter('ignore')
+          a = cls(**kw).fit(Xf[idx], *extra)
+          b = cls(preprocessor=pre, **kw).fit(idx, *extra)
+          da, db = a.pair_distance(Xf[idx[:, :2]]), b.pair_distance(idx[:, :2])
+      except Exception as ex:
+        ctx.fail_input('fit_indices_vs_formed', '%s with a callable preprocessor of row-dependent dtype raises %s' % (nm, type(ex).__name__),
+                       dict(estimator=nm, indices=idx.tolist()), observed=str(ex)[:200])
+        continue
+      if not same(a.components_, b.components_) or not same(da, db):
+        ctx.fail_input('fit_indices_vs_formed', '%s: tuples formed through a callable preprocessor whose output type depends on the rows differ from the formed tuples (fractions lost in the columns after the first)' % nm,
+                       dict(estimator=nm, indices=idx.tolist(), rows=rows), observed=np.asarray(b.components_).tolist(), expected=np.asarray(a.components_).tolist())
+
+
 def run(ctx):
   from metric_learn.exceptions import PreprocessorError
   thorough = ctx.tier == 'thorough'
@@ -243,6 +300,7 @@ def run(ctx):
   # the preprocessor in force is the one given last (set_params between two fits, overlapping views, through pickle): shared with C17
   from props.c17 import preprocessor_history_lane
   preprocessor_history_lane(ctx)
+  special_preprocessor_lanes(ctx)
   for name, kw, data in fits.zoo_specs(np.random.default_rng(ctx.seed + 23), variants=False):
     one_spec(ctx, name, kw, data, ('ndarray', 'list', 'callable'), 'float64')
     # the preprocessor holds some points under several indicators (repeated rows) and the tuples use either indicator;
